@@ -39,9 +39,9 @@ ARMED = {
  'C11': ('ONLY the structural clauses: every shipped space-transfer class returns a new object of the argument\'s type on the target grid and leaves the argument alone; components are treated alike (generic .components loop or arms identical up to the component name); no data-type arm is shadowed by a base-class arm; Rspace = c*Pspace^T with c = 0.5 / 1.0 (injection) in the 1-d and n-d branches, Kronecker assembly in direction order for P and R; BaseTransfer builds Pcoll/Rcoll with source/target nodes the right way round, takes the identity only for equal node SETS and applies Rcoll in restrict / Pcoll in prolong; the six copies of the Lagrange-basis block and the k-nearest-neighbour selection of transfer_helper agree',
          'NOT decided (numeric, stays with the other families): polynomial exactness, rows summing to one, restriction after prolongation = identity, FFT band-limit exactness, boundary rows of padded stencils. Three defects found by these rules were repaired (fix 02d1390, d3ee753, 328a793).',
          'AST sibling cross-checks (arms, copies), class-hierarchy aware dispatch-chain reachability, term normaliser on the matrix assembly, flow-sensitive alias lattice on restrict/prolong', '11.1 (C11)'),
- 'C12': ('purity clause only: a flow-sensitive alias/view/fresh lattice over every contract method (251 methods of 99 problem classes) shows that no in-place write reaches a parameter (one level of self.helper() call-through) and that eval_f/solve_system* results are fresh',
-         'not decided (numeric): residual of the solve, equality of split and unsplit right-hand sides, exact solutions. Two defects found by the rule were repaired (fixes 6214e51, 7c54d72).',
-         'flow-sensitive abstract interpretation of aliasing (fresh / view / alias tags), syntax-directed', '4 C12'),
+ 'C12': ('purity clause: a flow-sensitive alias/view/fresh lattice over every contract method (251 methods of 99 problem classes) shows that no in-place write reaches a parameter (one level of self.helper() call-through) and that eval_f/solve_system* results are fresh; splitting clause, where it is symbolic: for 19 sibling pairs (impl/expl, comp1/comp2, unsplit; FD Allen-Cahn families, Quench, advection-diffusion FFT, polynomial test problem, stabilised 2-d FFT Allen-Cahn) the symbolic sum of the components of eval_f equals that of the parent class (operators opaque, reshape transparent, FFTs linear, stabilisation shift accounted for); per-dimension sums have no deviating term',
+         'not decided (numeric): residual of the solve, exact solutions (beyond the per-dimension sibling rule), splittings whose eval_f has data-dependent branches or spectral/physical switches (16 pairs are listed as NOTE: not decided). Three defects found by the rules were repaired (fixes 6214e51, 7c54d72, 540c596).',
+         'flow-sensitive abstract interpretation of aliasing (fresh / view / alias tags), syntax-directed; symbolic comparison (sympy) of locally inlined eval_f expressions of sibling classes', '4 C12'),
  'C13': ('datatype classes define no in-place operator and drop `out`, binary operators allocate, copy constructors copy, abs is a max norm; every in-place write into level data found by the slot lattice over 573 run-time functions is fresh-in-function or an entry of table B4; uend is only ever rebound; escape boundaries copy',
          'not decided: dtype/shape closure of arithmetic, norm axioms numerically. F13 (MPI bcast into the logged uend) is a recorded known finding (not executable here).',
          'slot-source alias lattice + dominating-allocation check + frozen exception table', '4 C13'),
